@@ -8,14 +8,14 @@ VERIF = os.path.dirname(os.path.dirname(os.path.abspath(__file__)))
 
 
 def round_of(sid):
-    for r in (9, 8, 7, 6, 5, 4, 3, 2):
+    for r in (10, 9, 8, 7, 6, 5, 4, 3, 2):
         if f"_r{r}m" in sid:
             return r
     return 1
 
 
 def main():
-    rows, stats = [], {r: [0, 0] for r in (1, 2, 3, 4, 5, 6, 7, 8, 9)}
+    rows, stats = [], {r: [0, 0] for r in (1, 2, 3, 4, 5, 6, 7, 8, 9, 10)}
     for d in sorted(glob.glob(os.path.join(VERIF, "seeded", "C*"))):
         if not os.path.isdir(d):
             continue
@@ -37,11 +37,11 @@ def main():
         rows.append((sid, m["breaks_property"], title[:120].replace("|", "/"), "; ".join(now), "no → yes" if missed_first else "yes",
                      (m.get("strengthening") or "").replace("|", "/")))
     out = ["# Seeded changes: which check catches which change", "",
-           "Each change was written by a fresh sub-agent that saw only the property text (rounds 2 to 9: plus one-line titles of the earlier",
+           "Each change was written by a fresh sub-agent that saw only the property text (rounds 2 to 10: plus one-line titles of the earlier",
            "changes, to avoid repeats) and a scratch worktree of /repo — nothing from /verif — then re-verified by `tools/seeded.py confirm` in a",
            "scratch worktree (demo passes on HEAD, patch applies, demo fails with the patch, the 71 baseline tests pass with and without it) and",
            "run against the checks by `tools/seeded.py run` (patch applied to /repo, `./check`, `git checkout -- .`).", "",
-           f"{sum(v[1] for v in stats.values())} changes, 2 per property and round (`Cxx_m1/2` = round 1, `Cxx_r2m1/2` = round 2, `Cxx_r3m1/2` = round 3, `Cxx_r4m1/2` = round 4, `Cxx_r5m1/2` = round 5, `Cxx_r6m1/2` = round 6, `Cxx_r7m1/2` = round 7, `Cxx_r8m1/2` = round 8, `Cxx_r9m1/2` = round 9; later rounds",
+           f"{sum(v[1] for v in stats.values())} changes, 2 per property and round (`Cxx_m1/2` = round 1, `Cxx_r2m1/2` = round 2, `Cxx_r3m1/2` = round 3, `Cxx_r4m1/2` = round 4, `Cxx_r5m1/2` = round 5, `Cxx_r6m1/2` = round 6, `Cxx_r7m1/2` = round 7, `Cxx_r8m1/2` = round 8, `Cxx_r9m1/2` = round 9, `Cxx_r10m1/2` = round 10; later rounds",
            "aim at less central code paths, size thresholds, caches, container kinds, histories).",
            "Caught by the own-property quick check *as it stood when the change was first run*: "
            + ", ".join(f"round {r}: {v[0]}/{v[1]}" for r, v in stats.items()) + ".",
